@@ -454,7 +454,32 @@ def run_ehepwin(ctx, p):
                 detail=dict(params=kw, points_checked=n, first_bad=bad[:3], n_bad=len(bad)))
 
 
+# ---- Blake at late times: every t > 0 is in the domain ------------------------------------------------------------------------------
+def gen_blakelate(rng, i, tier):
+    from .c15 import material
+    m = material(logu(rng, 1e9, 1e11), uni(rng, 0.05, 0.45))
+    return dict(shear_mod=m["shear_mod"], poisson_ratio=m["poisson_ratio"], ref_density=logu(rng, 1000, 10000), cavity_radius=logu(rng, 0.01, 1.0),
+                pressure_scale=m["bulk_mod"] * logu(rng, 1e-5, 1e-3), frac=[0.3, 0.8, 0.95, 0.98, 0.99, 0.995, 0.999][i % 7])
+
+
+def run_blakelate(ctx, p):
+    from exactpack.solvers.blake import Blake
+    kw = {k: p[k] for k in ("shear_mod", "poisson_ratio", "ref_density", "cavity_radius", "pressure_scale")}
+    s = ctx.make(Blake, **kw)
+    nu, a = p["poisson_ratio"], p["cavity_radius"]
+    cl = math.sqrt(float(s.long_mod) / p["ref_density"])
+    n = ((1.0 - 2.0 * nu) / (1.0 - nu)) * (cl / a)
+    # the strain formula holds exp(n (t + a/cl)): times up to the point where that factor leaves the floating-point range
+    t = p["frac"] * 709.0 / n - a / cl
+    ctx._c20_indomain = True
+    try:
+        ctx.call(s, a * np.array([1.0, 1.5, 3.0, 10.0, 100.0]), t)      # judged by the online finiteness monitor
+    finally:
+        ctx._c20_indomain = False
+
+
 UNITS = [
+    Unit("blake.late", gen_blakelate, run_blakelate, quick=21, thorough=210, min_nontrivial=10),
     Unit("ehep.window", gen_ehepwin, run_ehepwin, quick=48, thorough=480, min_nontrivial=40),
     Unit("kenamond2.times", gen_k2times, run_k2times, quick=72, thorough=720, min_nontrivial=60),
     Unit("blake.nonpd", gen_blake, run_blake, quick=15 * len(NONPD), thorough=15 * len(NONPD) * 6, min_nontrivial=100),
